@@ -20,6 +20,9 @@ aa,<s>,<o>  ma,<s>,<o>           append_all_results / merge_all_results
 mao,<s>,<o>                      merge_all_results of the source before the repair (model only)
 cb,<s1>,<s2>                     s<k> = combine_simulation_results(s1, s2)
 g,<ref> mn,<ref> vr,<ref>        get_result / get_result_mean / get_result_var
+cr,<name>,<ty>,<acc>,<v>,<t>     r<k> = Result.create(…)            an,<s>,<name>,<ty>,<v>,<t>  add_new_result
+cp,<ref>  cps,<s>                deep copy / pickle round trip of a Result / a result set (new r<k> / s<k>)
+q,<ref>  qs,<s>                  non-mutating queries (no effect on the model)
 ro,<s>,<n1:n2:…>                 same result set with its results added in the order n1, n2, …
 up,<s>                           s.params.unpacked_parameters (parameter names are sent hex(utf-8) encoded)
 eq,<ref>,<ref>                   a == b
@@ -130,6 +133,12 @@ def setParams (st : St) (s fx un : String) : Option St := do
 /-- one op; `none` = malformed op -/
 def stepOp (st : St) (i : Nat) (op : String) : Option St :=
   match op.splitOn "," with
+  | ["nr", nm, ty, acc, cn, _form] => do   -- 6th field: numpy type of choice_num, used by the harness only
+      let ty ← tyOf? ty
+      let cn ← (if cn = "-" then some none else cn.toNat?.map some)
+      match mkRes nm ty (acc = "1") cn with
+      | .ok r => let (m, a) := allocRes st.m r; pure { st with m := m, rv := st.rv ++ [a] }
+      | .error e => pure { st with errs := (toString i ++ ":" ++ toString e) :: st.errs }
   | ["nr", nm, ty, acc, cn] => do
       let ty ← tyOf? ty
       let cn ← (if cn = "-" then some none else cn.toNat?.map some)
@@ -190,6 +199,33 @@ def stepOp (st : St) (i : Nat) (op : String) : Option St :=
       let a ← resolve st ref
       let r ← st.m.res[a]?
       pure (out st i (showER (getVar r)))
+  | ["cr", nm, ty, acc, v, t] => do   -- r<k> = Result.create(name, ty, value, total, accumulate_values)
+      let ty ← tyOf? ty
+      let v ← parseRat? v
+      let t ← parseRat? t
+      match createRes nm ty v t (acc = "1") with
+      | .ok r => let (m, a) := allocRes st.m r; pure { st with m := m, rv := st.rv ++ [a] }
+      | .error e => pure { st with errs := (toString i ++ ":" ++ toString e) :: st.errs }
+  | ["an", s, nm, ty, v, t] => do     -- s.add_new_result(name, ty, value, total)
+      let s ← s.toNat?
+      let ty ← tyOf? ty
+      let v ← parseRat? v
+      let t ← parseRat? t
+      if s < st.m.sims.length then pure (record st i (addNewResult st.m s nm ty v t)) else none
+  | ["cp", ref] => do                 -- r<k> = copy.deepcopy(ref) / pickle round trip
+      let a ← resolve st ref
+      match copyRes st.m a with
+      | (m, some a') => pure { st with m := m, rv := st.rv ++ [a'] }
+      | (_, none) => none
+  | ["cps", s] => do                  -- s<k> = copy.deepcopy(s) / pickle round trip
+      let s ← s.toNat?
+      if s < st.m.sims.length then pure { st with m := copySim st.m s } else none
+  | ["q", ref] => do                  -- queries (repr, ==, observers, confidence interval …): no effect
+      let _ ← resolve st ref
+      pure st
+  | ["qs", s] => do                   -- queries on a result set and its parameters: no effect
+      let s ← s.toNat?
+      if s < st.m.sims.length then pure st else none
   | ["ro", s, names] => do  -- the results of s were added in this order (must name every result once)
       let s ← s.toNat?
       let ns := fields names ":"
